@@ -425,9 +425,12 @@ def _convolve1d(g):
 
 
 def _find(g):
-    a = g.arr(g.dtype(UINT + ['int32', 'bool', 'float64']), g.shape(2), 'rand', hi=1)
+    dt = g.dtype(UINT + ['int32', 'bool', 'float64', 'float64', 'float32', 'float64'])
+    kz = dict(negzero=1) if dt in FLT else {}      # zeros of either sign in image AND template: equal values, different bits
+    a = g.arr(dt, g.shape(2), 'rand', hi=1, **kz)
     s = _shape_of(a)
-    t = g.arr(a['a']['dtype'], [g.r.randint(1, max(1, s[0])), g.r.randint(1, max(1, s[1]))], 'rand', hi=1)
+    small = g.r.random() < 0.6                     # small templates: occurrences exist
+    t = g.arr(dt, [g.r.randint(1, 2 if small else max(1, s[0])), g.r.randint(1, 2 if small else max(1, s[1]))], 'rand', hi=1, **kz)
     return [a, t], {}
 
 
